@@ -354,11 +354,33 @@ func (s *Server) sendResponseUnsafe(invokeID string, additionalHeaders map[strin
 func (s *Server) SendResponse(invokeID string, resp *interop.StreamableInvokeResponse) error {
 	verifAt("server.sendResponse")
 	s.setRuntimeState(runtimeInvokeResponseSent)
+	payload := resp.Payload
+	if !s.isDirectInvoke() {
+		// A buffered response is read in full anyway: read it from the runtime before taking the mutex, so that
+		// a runtime that sends its body slowly does not hold up everybody else who needs the mutex (a further
+		// caller must be refused at once, not when the upload is over). A read error is handed on to be
+		// reported after the checks below, as before.
+		data, err := io.ReadAll(payload)
+		payload = bytes.NewReader(data)
+		if err != nil {
+			payload = io.MultiReader(payload, &failingReader{err})
+		}
+	}
 	s.mutex.Lock()
 	defer s.mutex.Unlock()
 	runtimeCalledResponse := true
-	return s.sendResponseUnsafe(invokeID, resp.Headers, resp.Payload, resp.Trailers, resp.Request, runtimeCalledResponse)
+	return s.sendResponseUnsafe(invokeID, resp.Headers, payload, resp.Trailers, resp.Request, runtimeCalledResponse)
 }
+
+func (s *Server) isDirectInvoke() bool {
+	s.mutex.Lock()
+	defer s.mutex.Unlock()
+	return s.invokeCtx != nil && s.invokeCtx.Direct
+}
+
+type failingReader struct{ err error }
+
+func (r *failingReader) Read([]byte) (int, error) { return 0, r.err }
 
 func (s *Server) SendInitErrorResponse(resp *interop.ErrorInvokeResponse) error {
 	log.Debugf("Sending Init Error Response: %s", resp.FunctionError.Type)
